@@ -133,7 +133,11 @@ Need separate gsm_data structs for encode and decode.
 		} ;
 
 	if (psf->file.mode == SFM_READ)
-	{	if (psf->datalength % pgsm610->blocksize == 0)
+	{	/* The container may have counted a pad byte (65 byte WAV blocks) into the data length. */
+		if (psf->dataend > 0)
+			psf->datalength = psf->dataend - psf->dataoffset ;
+
+		if (psf->datalength % pgsm610->blocksize == 0)
 			pgsm610->blocks = psf->datalength / pgsm610->blocksize ;
 		else if (psf->datalength % pgsm610->blocksize == 1 && pgsm610->blocksize == GSM610_BLOCKSIZE)
 		{	/*
